@@ -71,7 +71,7 @@ func OwnPodsDomain(nPods int) *Domain {
 //
 //	dims: policy, deleting, paused, fresh(4), then 3 pod slots: absent | adoptable orphan | terminating orphan | owned
 func AdoptDomain() *Domain {
-	dims := []int{2, 2, 2, 4, 4, 4, 4}
+	dims := []int{2, 2, 2, 4, 5, 5, 5}
 	d := &Domain{Name: "adopt(3 pods)", Dims: dims}
 	d.Make = func(ix []int) *Scenario {
 		sc := &Scenario{Dom: ix}
@@ -93,6 +93,8 @@ func AdoptDomain() *Domain {
 				sc.Pods = append(sc.Pods, PodSpec{Ord: o, Phase: "Running", Ready: true, Term: true, Rev: "t2.0", Owner: "none"})
 			case 3:
 				sc.Pods = append(sc.Pods, PodSpec{Ord: o, Phase: "Running", Ready: true, Rev: "t2.0", Owner: "self"})
+			case 4: // an orphan the roll-out would replace once it is adopted (outdated revision)
+				sc.Pods = append(sc.Pods, PodSpec{Ord: o, Phase: "Running", Ready: true, Rev: "t1.0", Owner: "none"})
 			}
 		}
 		return sc
@@ -474,6 +476,8 @@ func extraDomain(name string, maxOrd, maxRep, nph int) *Domain {
 		return FaultDomain(PodsDomain(maxOrd, maxRep, nph, false), 8, true)
 	case "faults-own-pods":
 		return FaultDomain(OwnPodsDomain(2), 6, false)
+	case "faults-adopt":
+		return FaultDomain(AdoptDomain(), 6, false)
 	case "faults-own-revs":
 		return FaultDomain(OwnRevsDomain(), 8, false)
 	case "faults-history":
@@ -496,6 +500,33 @@ func extraDomain(name string, maxOrd, maxRep, nph int) *Domain {
 		return AdoptDomain()
 	case "history":
 		return HistoryDomain()
+	case "pods-dotted":
+		// the pods domain for a set whose name is a DNS subdomain with dots and a digit-only last label ("db.v1.2"): pod
+		// names, host names, the pod-name label and the claim names are derived from "<set>-<ordinal>" all the same
+		d := PodsDomain(maxOrd, maxRep, nph, false)
+		d.Name = "pods-dotted: " + d.Name
+		inner := d.Make
+		d.Make = func(ix []int) *Scenario {
+			sc := inner(ix)
+			sc.Set.Name = "db.v1.2"
+			return sc
+		}
+		return d
+	case "history-slots":
+		// the history domain of a set with a delete slot: replicas 2, slot 0 -> the desired pods sit at ordinals 1 and 2,
+		// one of them at an ordinal >= spec.replicas (which upstream's controller would call condemned)
+		d := HistoryDomain()
+		d.Name = "history-slots(4 revisions, 2 pods at ordinals 1 and 2, slot 0)"
+		inner := d.Make
+		d.Make = func(ix []int) *Scenario {
+			sc := inner(ix)
+			sc.Set.SlotsAnn = slotsAnn([]int{0})
+			for i := range sc.Pods {
+				sc.Pods[i].Ord++
+			}
+			return sc
+		}
+		return d
 	case "claims":
 		return ClaimsDomain()
 	case "admitted":
